@@ -417,7 +417,7 @@ func runC03(r *core.Run) {
 		r.SetBound("plan", "rank0-2 dims<=4 depth 4; rank3 dims<=3 depth 3 (+3 shapes depth 4); rank4 dims<=2 + 3 shapes depth 2 (2 shapes depth 3); rank5 dims<=2 + (3,3,3,3,3) + 2 shapes depth 2 reduced alphabet")
 	}
 	dts := ref.W6
-	layouts := []string{"C", "F", "S", "SS"}
+	layouts := []string{"C", "F", "S", "SS", "DC", "DS"}
 	maxStates := 1500
 	if !quick {
 		maxStates = 20000
@@ -434,7 +434,7 @@ func runC03(r *core.Run) {
 					if r.Expired() {
 						return
 					}
-					if len(shape) >= 4 && (lay == "SS" || lay == "S") && d.Name != "float32" && d.Name != "complex128" {
+					if (len(shape) >= 4 && (lay == "SS" || lay == "S") || lay == "DS" || (lay == "DC" && len(shape) >= 4)) && d.Name != "float32" && d.Name != "complex128" {
 						continue
 					}
 					c03BFS(r, d, shape, lay, pl.depth, pl.full, maxStates)
@@ -456,7 +456,7 @@ func c03BFS(r *core.Run, d ref.DT, shape []int, lay string, depth int, full bool
 		if err != nil {
 			return nil
 		}
-		return &c03state{t: b.T, L: ref.Arr{DT: d, Shape: ref.CopyInts(shape), El: vals}, owns: lay == "C" || lay == "F"}
+		return &c03state{t: b.T, L: ref.Arr{DT: d, Shape: ref.CopyInts(shape), El: vals}, owns: lay == "C" || lay == "F" || lay == "DC"}
 	}
 	if mkRoot() == nil {
 		r.Dim("skipped_roots", lay)
